@@ -592,6 +592,39 @@ def py_oracle(spaces):
     return None
 
 
+def defined_of(spaces):
+    return {s: {k: {n: m[1] for n, m in o[k].items() if not m[0]} for k in ("cells", "refs")} for s, o in spaces.items()}
+
+
+def frame_oracle(ops, steps):
+    """(P, part 2) the DEFINED members are exactly what the history defined: an accepted edit changes the
+    defined members of its own space as it says and of no other space, a rejected one changes nothing.
+    Returns None or (step index, text)."""
+    prev = {}
+    for i, (op, st) in enumerate(zip(ops, steps)):
+        cur = defined_of(st["spaces"])
+        exp = copy.deepcopy(prev)
+        k = op[0]
+        if st["out"] == ACCEPTED:
+            if k == "NewSpace":
+                exp[op[1]] = {"cells": {}, "refs": {}}
+            elif k == "DelSpace":
+                exp.pop(op[1], None)
+            elif k in ("NewCells", "SetFormula"):
+                exp[op[1]]["cells"][op[2]] = op[3]
+            elif k in ("NewRef", "ChangeRef"):
+                exp[op[1]]["refs"][op[2]] = op[3]
+            elif k == "DelCells":
+                exp[op[1]]["cells"].pop(op[2], None)
+            elif k == "DelRef":
+                exp[op[1]]["refs"].pop(op[2], None)
+        if cur != exp:
+            diff = [(s_, cur.get(s_), exp.get(s_)) for s_ in sorted(set(cur) | set(exp)) if cur.get(s_) != exp.get(s_)]
+            return i, "defined members after %r (outcome %s) are not the ones the history defined: (space, actual, expected) = %r" % (op, st["out"], diff[:3])
+        prev = cur
+    return None
+
+
 # --------------------------------------------------------------------------
 # suites
 # --------------------------------------------------------------------------
@@ -640,11 +673,24 @@ def run_histories(tag, hists, out, label):
     cases = [{"kind": "hist", "ops": ops} for ops in hists]
     res = fw.run_driver("c03", cases)
     terms = []
-    for c, r in zip(cases, res):
-        for i, st in enumerate(r["steps"]):
-            if st["spaces"] is None:
-                raise fw.Broken("cannot observe the model after %r: %s" % (c["ops"][:i + 1], st["exc"]))
+    keep = []
+    for ci, (c, r) in enumerate(zip(cases, res)):
+        broken = next((i for i, st in enumerate(r["steps"]) if st["spaces"] is None), None)
+        if broken is not None:
+            out.p_failures.append({"case": c["ops"][:broken + 1], "suite": label,
+                                   "detail": "the model cannot be observed any more after the last operation: %s" % r["steps"][broken]["exc"],
+                                   "script": script_of(c["ops"][:broken + 1])})
+            continue
+        fo = frame_oracle(c["ops"], r["steps"])
+        if fo is not None:
+            out.p_failures.append({"case": c["ops"][:fo[0] + 1], "suite": label, "detail": fo[1],
+                                   "script": script_of(c["ops"][:fo[0] + 1])})
+        keep.append(ci)
         terms.append(chist(c["ops"], r["steps"]))
+    nskipped = len(cases) - len(keep)
+    cases = [cases[i] for i in keep]
+    res_all = res
+    res = [res[i] for i in keep]
     bad = fw.run_coq_cases(tag, REQ, CASE_T, "check_both", terms, shard=40)
     if bad:
         sub = [terms[i] for i in bad]
@@ -662,7 +708,7 @@ def run_histories(tag, hists, out, label):
                 out.tie_mismatches.append({"case": ops, "suite": label, "impl": [(st["out"], st["exc"]) for st in steps],
                                            "detail": "Defs/Model.v step and the implementation disagree (outcome or observation)",
                                            "script": script_of(ops)})
-    out.evaluations += len(cases)
+    out.evaluations += len(cases) + nskipped
     out.traces_validated += len(cases) - len(bad)
     return res
 
